@@ -388,7 +388,7 @@ class JSON(Spec):
         if case["title"]:
             kw["title"] = case["title"]
         if case["atmasses"]:
-            kw["atmasses"] = np.array([15.999, 1.008, 2.014][: min(n, 3)] + [1.008] * max(0, n - 3))
+            kw["atmasses"] = np.array([15.999, 1.008, 2.014][: min(n, 3)] + [1.008] * max(0, n - 3)) * units.amu
         if case["bonds"] != "none" and n > 1:
             kw["bonds"] = fmtspecs.bonds_menu(case["bonds"], n, [1, 2])
         if case["g_rot"]:
@@ -464,7 +464,7 @@ class JSON(Spec):
         if o.title:
             d.exact("title", o.title, b.title)
         if o.atmasses is not None:
-            d.close("atmasses", o.atmasses, b.atmasses, abs_tol=0.0)
+            d.close("atmasses", o.atmasses, b.atmasses, rel_tol=4.5e-16)  # repr() digits, one division and one multiplication by amu
         if o.bonds is not None:
             d.exact("bonds", o.bonds, [] if b.bonds is None else b.bonds)
         if o.g_rot:
